@@ -518,6 +518,22 @@ func tailCallsFamily(budget time.Duration) mc.Family {
 		prog{"/p { /p load 8 /q load put 1 2 q } def /q { 3 } def /q { 4 } def p", "1 2 {4}"},
 		prog{"/p { /p load 8 /add load put 1 2 3 } def p", "3"},
 	)
+	// forall reads the container while it walks over it (arrays and strings
+	// are shared, writable objects): what the body stores into a slot
+	// that has not been visited yet is what the later round receives, also
+	// through a sub-interval that shares the storage and from an inner loop
+	progs = append(progs,
+		prog{"/a [1 2 3] def a { a 2 99 put } forall", "1 2 99"},
+		prog{"/a [1 1 1 1] def /i 0 def a { /i i 1 add def i 4 lt { a i i 1 add put } if } forall", "1 2 3 4"},
+		prog{"/a [5 6 7 8] def a 1 3 getinterval { a 3 0 put } forall", "6 7 0"},
+		prog{"/a [5 6 7 8] def a { a 1 3 getinterval 2 0 put } forall", "5 6 7 0"},
+		prog{"/a [1 2 3] def a { a 0 99 put } forall a 0 get", "1 2 3 99"},
+		prog{"/s (abc) def s { s 2 65 put } forall", "97 98 65"},
+		prog{"/s (abcd) def s 1 3 getinterval { s 3 48 put } forall", "98 99 48"},
+		prog{"/a [1 2 3] def a { 2 { a 2 7 put } repeat } forall", "1 2 7"},
+		prog{"/a [1 2 3] def /b [4 5] def a { b { pop a 2 8 put } forall } forall", "1 2 8"},
+		prog{"/a [1 2 3] def a { a 1 [4 5] putinterval } forall", "1 4 5"},
+	)
 	// a name whose value is an executable name is resolved again, at the time it is executed
 	progs = append(progs,
 		prog{"/plus {add} 0 get def 1 2 plus", "3"},
